@@ -10,6 +10,8 @@ CONSTANTS
   TermResponds = TRUE
   SerialMod = 8
   Identity = TRUE
+  TermReads = TRUE
+  TermCloses = TRUE
 INVARIANTS NoPanic OwnResponse ResultsSane WrittenOnce OwnTimeout SerialsConsecutive RepliesInOrder NoDuplicateReply
 PROPERTIES Returns
 CHECK_DEADLOCK FALSE
